@@ -374,3 +374,14 @@ def counter_bound_exit(body, dag, x, y, bounds=("MAX_STREAMS", "running_streams_
     kind, a, b, T, Fl = cb
     a_, b_ = D.strip_casts(a), D.strip_casts(b)
     return Fl == y and T != Fl and a_[0] == "phi" and any(n in D.show(b_) for n in bounds)
+
+
+def plain_forward(e, depth=0):
+    """the expression is one of the function's own parameters / captures / fields handed on as it is (no arithmetic, no call that could change it)"""
+    e = D.strip_casts(e)
+    if not isinstance(e, tuple) or depth > 12: return False
+    if e[0] in ("param", "mem", "ref"): return True
+    if e[0] == "field": return plain_forward(e[2], depth + 1)
+    if e[0] == "deref": return plain_forward(e[1], depth + 1)
+    if e[0] == "call" and e[1].split("::")[-1] in ("clone", "deref", "borrow", "as_ref") and len(e[2]) == 1: return plain_forward(e[2][0], depth + 1)
+    return False
